@@ -30,6 +30,22 @@ func checkC15(ctx *Ctx) {
 		os.WriteFile(f2, []byte("1.0.0\n2.0.0"), 0o644)
 		odd = append(odd, "@"+f1, "@"+f2, f1, "file:"+f1, "<"+f1, "@/dev/null", "$HOME", "${PATH}", "~", dir+"/*", "@", "@@", "@1.0.0")
 	}
+	// arguments that are runs of one multi-byte rune (10..260 runes, 2-4 bytes each): a limit
+	// tested in bytes and applied in runes (or the reverse) fails where the two counts part; the
+	// lengths also follow every new constant of cmd
+	{
+		lens := []int{10, 25, 40, 60, 67, 100, 130, 200, 260}
+		for _, c := range newIntsFor("cmd") {
+			if v, err := strconv.Atoi(c); err == nil && v >= 8 && v <= 2000 {
+				lens = append(lens, v/4+1, v/3+1, v/2+1, v-1, v, v+1)
+			}
+		}
+		for _, n := range lens {
+			for _, u := range []string{"é", "漢", "😀"} {
+				odd = append(odd, strings.Repeat(u, n))
+			}
+		}
+	}
 	var cases [][]string
 	seen := map[string]bool{}
 	add := func(av []string) {
@@ -132,6 +148,11 @@ func checkC15(ctx *Ctx) {
 				av = append(av, a)
 			}
 			add(av)
+			// the same arguments in another order: which argument is the range and which the
+			// version is decided by position, not by what the texts look like
+			if len(av) == 4 && r.Chance(15) {
+				add([]string{av[0], av[1], av[3], av[2]})
+			}
 		}
 	}
 	for _, name := range otherNames {
@@ -312,7 +333,10 @@ func unicodeSpaces(r *RNG, a string) string {
 // (alpine, alpm, debian, maven, rpm) accept such texts; quoting, lower-casing and byte-wise
 // scanners treat them differently from ASCII.
 func nonASCIIInside(r *RNG, a string) string {
-	u := r.Pick([]string{"é", "ü", "ß", "Ω", "漢", "😀", "\u212a", "\u017f", "İ", "٣", "３", "ǅ"})
+	// incl. runes whose lower- or upper-case form has another UTF-8 length (U+212A K -> k, U+2126
+	// -> ω, U+212B -> å, U+1E9E -> ß, U+0130 -> i̇, U+023A -> ⱥ): offsets computed on one form
+	// and applied to the other go out of range
+	u := r.Pick([]string{"é", "ü", "ß", "Ω", "漢", "😀", "\u212a", "\u017f", "İ", "٣", "３", "ǅ", "\u2126", "\u212b", "\u1e9e", "\u023a", "ı"})
 	var idx []int
 	for i := 0; i < len(a); i++ {
 		if tokClass(a[i]) != 2 {
